@@ -85,6 +85,8 @@ def ttensor_parts(d):
 def ref_array(d):
     k = d["kind"]
     if k in ("tensor", "sptensor"):
+        if d.get("emptied"):
+            return np.zeros(tuple(d["shape"]))
         return rm.arr(d["shape"], _vals(d))
     if k == "ktensor":
         w, fs = ktensor_parts(d)
@@ -133,7 +135,12 @@ def build(d):
         return ttb.tensor(np.asfortranarray(a))
     if k == "sptensor":
         subs, vals = sp_parts(shape, _vals(d), d.get("order"))
-        return make_sptensor(shape, subs, vals)
+        S = make_sptensor(shape, subs, vals)
+        if d.get("emptied"):
+            # a non-initial state: every stored entry removed in place (the all-zero tensor, reached by a history; the
+            # reference array of such a descriptor is all zero - see ref_array)
+            S[tuple(slice(None) for _ in shape)] = 0
+        return S
     if k == "ktensor":
         w, fs = ktensor_parts(d)
         return ttb.ktensor([f.copy(order="F") for f in fs], w.copy())
